@@ -52,6 +52,9 @@ func (f *failWriter) Write(p []byte) (int, error) {
 	return len(p), nil
 }
 
+// entry points that copy what they decode (the others borrow the caller's bytes by contract)
+var copying = map[string]bool{"readfrom": true, "must": true, "unmarshal": true, "base64": true}
+
 func optInt(a []string, key string, def int) int {
 	for _, s := range a {
 		if strings.HasPrefix(s, key+"=") {
@@ -146,6 +149,12 @@ func init() {
 			data = data[:len(bs)]
 		}
 		n, pulled, err := decodeInto(e, y, entry, data, optInt(a[3:], "chunk", 0))
+		if err == nil && copying[entry] {
+			// the copying entry points must not keep a reference to the caller's bytes: the caller reuses its buffer
+			for i := range data {
+				data[i] ^= 0xFF
+			}
+		}
 		if err != nil {
 			// a failed round trip leaves no object behind (on either side of the comparison), so that the script can go on
 			delete(e.bm, a[0])
@@ -215,6 +224,11 @@ func init() {
 		n, _, derr := decodeInto(e, y, a[1], data, optInt(a[4:], "chunk", 0))
 		if derr != nil {
 			return "err:" + spaceless(derr.Error())
+		}
+		if copying[a[1]] {
+			for i := range data {
+				data[i] ^= 0xFF
+			}
 		}
 		e.bm[a[0]] = y
 		e.bufs[a[0]] = data
